@@ -41,6 +41,9 @@ use crate::{
 };
 
 mod path_state;
+/// Verification hooks of the path state, compiled only with `--cfg iroh_verif`.
+#[cfg(iroh_verif)]
+pub use self::path_state::verif_hooks as path_state_verif_hooks;
 mod path_watcher;
 mod remote_info;
 
